@@ -9,7 +9,16 @@ from ..common import Ctx, pmap
 from ..tlc import MachineryError, read_emitted, run_tlc, workdir
 from .. import palpha
 
-NUM_LITS = {"0", "1", "2", "3", "4", "5", "2.5"}
+
+
+def lit_attrs(text: str):
+    """oracle attributes of a literal token: is it a number; value if an integer literal (else -1)."""
+    num = text.replace(".", "", 1).isnumeric()
+    ival = -1
+    if text.isdigit() and text.isascii() and (text[0] != "0" or set(text) == {"0"}):
+        ival = int(text)
+    return num, ival
+
 NAMES = list("abcdefghijkl")
 FLAGSETS = [[], ["TWOSIDED"], ["MULTIPART"], ["TWOSIDED", "MULTIPART"], ["TWOSIDED", "MULTIPART", "MULTISTAGE"]]
 
@@ -23,15 +32,17 @@ def abstract_tokens(s: str):
     for t in sanitize_tokens(tokenize(s)):
         k = t.kind.value
         if k == "operator":
-            out.append({"k": "op", "s": "", "cs": [t.token] if t.token in ("in", ".") else list(t.token), "vars": []})
+            out.append({"k": "op", "s": "", "cs": [t.token] if t.token in ("in", ".") else list(t.token), "vars": [],
+                        "num": False, "ival": -1})
         elif k == "context":
-            out.append({"k": "open" if t.token in "([" else "close", "s": t.token, "cs": [], "vars": []})
+            out.append({"k": "open" if t.token in "([" else "close", "s": t.token, "cs": [], "vars": [], "num": False, "ival": -1})
         elif k == "value":
-            if t.token not in NUM_LITS and not t.token.startswith(("'", '"')):
+            num, ival = lit_attrs(t.token)
+            if ival > 1000:
                 return None
-            out.append({"k": "value", "s": t.token, "cs": [], "vars": []})
+            out.append({"k": "value", "s": t.token, "cs": [], "vars": [], "num": num, "ival": ival})
         else:
-            out.append({"k": k, "s": t.token, "cs": [], "vars": sorted(str(v) for v in t.required_variables)})
+            out.append({"k": k, "s": t.token, "cs": [], "vars": sorted(str(v) for v in t.required_variables), "num": False, "ival": -1})
     return out
 
 
@@ -88,7 +99,7 @@ class Gen:
         if x < 0.70:
             return [r.choice(NAMES[: r.randint(2, 12)])]
         if x < 0.80:
-            return [r.choice(["0", "1", "2", "3"])]
+            return [r.choice(["0", "1", "2", "3", "10", "01", "00", "1.", "2.5"])]
         if x < 0.86:
             return [r.choice(["f(a)", "log(b)", "{a+1}", "C(c, contr.treatment)", "`x y`", "np.log( a )"])]
         if x < 0.90:
